@@ -30,7 +30,7 @@ MenuKids(n) == Tab[n].kids
 \*  Substituter: x (1), y (2), x / y (8), y + x / y (9); maps 1 (y := 7), 2 (y := 0);
 \*  rebuilding x / y under y := 0 raises ZeroDivisionError in the type checker
 NodesSub == {1, 2, 8, 9}
-RootsSub == {2, 8, 9}
+RootsSub == {2, 9}
 MapsSub  == {1, 2}
 BadSub   == {{<<8, 2>>}}
 \*  Simplifier: y + 1 / (u * 0) and its sub-terms; no keyword arguments (map 0);
